@@ -9,7 +9,10 @@ import (
 	ipfslog "berty.tech/go-ipfs-log"
 	logac "berty.tech/go-ipfs-log/accesscontroller"
 	"berty.tech/go-ipfs-log/entry"
+	"berty.tech/go-orbit-db/baseorbitdb"
+	"berty.tech/go-orbit-db/iface"
 	cid "github.com/ipfs/go-cid"
+	"github.com/libp2p/go-libp2p/p2p/host/eventbus"
 	"verifharness/sim"
 )
 
@@ -76,7 +79,7 @@ func runC10(r *Run) error {
 	if r.Tier == "thorough" {
 		scens = 600
 	}
-	for _, si := range []int{-1, -2} {
+	for _, si := range []int{-1, -2, -3} {
 		if err := c10Scenario(r, si); err != nil {
 			return err
 		}
@@ -113,8 +116,11 @@ func c10Scenario(r *Run, si int) error {
 	// x fetched before v, v announced again.
 	// si == -2: the same for the LoadMoreFrom route: LoadMoreFrom([copy of v with another
 	// payload]), the fetch completes, v announced again
+	// si == -3: the head-exchange route: an exchange message [v, tampered copy of another valid
+	// entry] is refused as a whole; the honest peer exchanges [v] again
 	forced := si < 0
 	forcedLM := si == -2
+	forcedEx := si == -3
 	nw := 1
 	if !forced {
 		nw = 1 + r.Rng.Intn(2)
@@ -129,6 +135,9 @@ func c10Scenario(r *Run, si int) error {
 	steps := 1
 	if !forced {
 		steps = 1 + r.Rng.Intn(5)
+	}
+	if forcedEx {
+		steps = 2
 	}
 	if nw > 1 {
 		steps += 2
@@ -220,6 +229,7 @@ func c10Scenario(r *Run, si int) error {
 		descr    []string
 		tampered bool // contains a copy whose claimed hash does not match its content
 		loadMore bool // handed over with LoadMoreFrom instead of Sync
+		exchange bool // delivered as a head-exchange message to the instance's handler
 	}
 	var anns []ann
 	announcedValid := map[string]bool{}
@@ -232,6 +242,15 @@ func c10Scenario(r *Run, si int) error {
 			anns = append(anns, ann{heads: []ipfslog.Entry{c10Tamper(s, v, rogue, "tampered")}, descr: []string{"tampered"}, tampered: true, loadMore: true})
 			usedTamperedLM = true
 			tamperedLM[g.num(v.GetHash().String())] = true
+		} else if forcedEx {
+			other := v
+			for _, e := range validEntries {
+				if e.GetHash().String() != v.GetHash().String() {
+					other = e
+					break
+				}
+			}
+			anns = append(anns, ann{heads: []ipfslog.Entry{v.Copy(), c10Tamper(s, other, rogue, "tampered")}, descr: []string{"valid-head", "tampered"}, tampered: true, exchange: true})
 		} else {
 			anns = append(anns, ann{heads: []ipfslog.Entry{rejected[0].Copy(), v.Copy()}, descr: []string{"nonwriter", "valid-head"}})
 		}
@@ -317,8 +336,17 @@ func c10Scenario(r *Run, si int) error {
 				g.quiesce(0, parked, "after LoadMoreFrom")
 				continue
 			}
-			annDescr = append(annDescr, append([]string{"route:sync"}, an.descr...))
-			err := g.store.Sync(ctx, an.heads)
+			var err error
+			if an.exchange || (!forced && r.Rng.Intn(3) == 0) {
+				// head exchange on connect: the heads arrive as a direct-channel message and go
+				// through the instance's handler (which hands them to Sync)
+				annDescr = append(annDescr, append([]string{"route:exchange"}, an.descr...))
+				err = g.exchange(an.heads)
+				r.Count("c10:announcement-exchange")
+			} else {
+				annDescr = append(annDescr, append([]string{"route:sync"}, an.descr...))
+				err = g.store.Sync(ctx, an.heads)
+			}
 			if err != nil {
 				// dropped as a whole: no request reaches the replicator
 				dropped++
@@ -397,7 +425,14 @@ func c10Scenario(r *Run, si int) error {
 	if !forced {
 		r.Rng.Shuffle(len(final), func(i, j int) { final[i], final[j] = final[j], final[i] })
 	}
-	if err := g.store.Sync(ctx, copyHeads(final)); err != nil {
+	// the honest peer re-announces the way peers do: by a head exchange on (re)connect, or by
+	// an announcement that reaches Sync directly
+	if forcedEx || (!forced && r.Rng.Intn(2) == 0) {
+		if err := g.exchange(copyHeads(final)); err != nil {
+			return fmt.Errorf("honest head exchange refused: %w", err)
+		}
+		r.Count("c10:final-by-exchange")
+	} else if err := g.store.Sync(ctx, copyHeads(final)); err != nil {
 		return fmt.Errorf("honest re-announcement refused: %w", err)
 	}
 	g.emit(fmt.Sprintf("ELoad 99%%N %s", sim.CoqListN(g.nums(hashesOf(final)))))
@@ -472,4 +507,71 @@ func (c *c10AppendCtx) GetLogEntries() []logac.LogEntry {
 		out[i] = es[i]
 	}
 	return out
+}
+
+// exchange delivers heads as a direct-channel head-exchange message to the receiver's
+// instance and waits until its handler has dealt with it: the handler works its messages off
+// one after the other and emits EventExchangeHeads for every message it accepted, so an empty
+// sentinel message sent right behind tells when the first one is through; the first one was
+// refused (Sync returned an error) iff no event was emitted for it.
+func (g *replRig) exchange(heads []ipfslog.Entry) error {
+	s := g.s
+	orbit := s.Reps[g.R].Orbit
+	sub, err := orbit.EventBus().Subscribe(new(baseorbitdb.EventExchangeHeads), eventbus.BufSize(64))
+	if err != nil {
+		return fmt.Errorf("subscribe: %w", err)
+	}
+	defer sub.Close()
+	// a stateful emitter replays its last event to a new subscriber: drain it
+	drain := time.After(30 * time.Millisecond)
+drained:
+	for {
+		select {
+		case <-sub.Out():
+		case <-drain:
+			break drained
+		}
+	}
+	hs := make([]*entry.Entry, 0, len(heads))
+	for _, h := range heads {
+		if e, ok := h.(*entry.Entry); ok {
+			hs = append(hs, e)
+		}
+	}
+	from := s.Reps[0].PID
+	send := func(list []*entry.Entry) error {
+		payload, err := json.Marshal(&iface.MessageExchangeHeads{Address: s.Addr, Heads: list})
+		if err != nil {
+			return err
+		}
+		s.Env.Net.InjectDirect(from, s.Reps[g.R].Idx, payload)
+		return nil
+	}
+	if err := send(hs); err != nil {
+		return err
+	}
+	if err := send([]*entry.Entry{}); err != nil {
+		return err
+	}
+	accepted := false
+	deadline := time.After(20 * time.Second)
+	for {
+		select {
+		case e := <-sub.Out():
+			ev, ok := e.(baseorbitdb.EventExchangeHeads)
+			if !ok || ev.Message == nil {
+				continue
+			}
+			if len(ev.Message.Heads) == 0 {
+				if accepted {
+					return nil
+				}
+				return fmt.Errorf("the head exchange was refused")
+			}
+			accepted = true
+		case <-deadline:
+			g.hang, g.hangAt = true, "the direct-channel handler did not get through the exchange"
+			return nil
+		}
+	}
 }
